@@ -526,6 +526,10 @@ func ruleSettingsCodec(p *Prog, r *Out) {
 		e, ok := enc[want]
 		r.check(ok && e.id == id, fmt.Sprintf("Encode %s", want), p.pos(efd.Pos()), fmt.Sprintf("%s written under id %d", want, id),
 			fmt.Sprintf("Settings.Encode writes field %s under identifier %d (found=%v); Read stores identifier %d there, so the two ends disagree on what the value means", want, e.id, ok, id))
+		if ok && want == "enablePush" {
+			good := len(e.shifts) == 4 && e.shifts[0] == -100 && e.shifts[1] == -100 && e.shifts[2] == -100 && e.shifts[3] == -101
+			r.check(good, "Encode enablePush value bytes", p.pos(efd.Pos()), "0,0,0,1", "Settings.Encode no longer writes ENABLE_PUSH=1 as the octets 0,0,0,1")
+		}
 		if ok && want != "enablePush" {
 			good := len(e.shifts) == 4 && e.shifts[0] == 24 && e.shifts[1] == 16 && e.shifts[2] == 8 && e.shifts[3] == 0
 			r.check(good, fmt.Sprintf("Encode %s value bytes", want), p.pos(efd.Pos()), "big-endian 32-bit value", fmt.Sprintf("Settings.Encode writes %s with shifts %v, not big-endian 24,16,8,0", want, e.shifts))
@@ -566,9 +570,9 @@ func ruleSettingsCodec(p *Prog, r *Out) {
 				p.collectShiftTerms(x.Rhs[0], pairs)
 				switch p.text(x.Lhs[0]) {
 				case "key":
-					keyOK = len(pairs) == 2 && pairs[0] == 8 && pairs[1] == 0
+					keyOK = pairsAre(pairs, map[int64]int64{0: 8, 1: 0})
 				case "value":
-					valOK = len(pairs) == 4 && pairs[2] == 24 && pairs[3] == 16 && pairs[4] == 8 && pairs[5] == 0
+					valOK = pairsAre(pairs, map[int64]int64{2: 24, 3: 16, 4: 8, 5: 0})
 				case "i":
 					if x.Tok == token.ADD_ASSIGN {
 						if v, ok := p.intConst(x.Rhs[0]); ok && v == 6 {
@@ -580,6 +584,43 @@ func ruleSettingsCodec(p *Prog, r *Out) {
 		}
 		return true
 	})
+	// loop: first entry is d[0:6], the loop runs while a whole entry is left, and the next entry starts where this one ended
+	loopOK := false
+	ast.Inspect(rfd.Body, func(n ast.Node) bool {
+		fs, ok := n.(*ast.ForStmt)
+		if !ok || fs.Cond == nil {
+			return true
+		}
+		c, ok := p.canonCmp(fs.Cond, nil)
+		if !ok || c.Op != "le" || !c.L.eq(Lin{T: map[string]int64{"i": 1, "n": -1}}) {
+			return true
+		}
+		slice, adv := false, false
+		for _, s := range fs.Body.List {
+			if as, ok := s.(*ast.AssignStmt); ok && len(as.Lhs) == 1 {
+				if p.text(as.Lhs[0]) == "b" && squash(p.text(as.Rhs[0])) == "d[last:i]" {
+					slice = true
+				}
+				if p.text(as.Lhs[0]) == "last" && p.text(as.Rhs[0]) == "i" {
+					adv = true
+				}
+			}
+		}
+		loopOK = slice && adv
+		return true
+	})
+	initOK := false
+	ast.Inspect(rfd.Body, func(n ast.Node) bool {
+		if as, ok := n.(*ast.AssignStmt); ok && as.Tok == token.DEFINE && len(as.Lhs) == 3 && len(as.Rhs) == 3 {
+			a, ok1 := p.intConst(as.Rhs[0])
+			b, ok2 := p.intConst(as.Rhs[1])
+			if ok1 && ok2 && a == 0 && b == 6 && p.text(as.Lhs[0]) == "last" && p.text(as.Lhs[1]) == "i" && squash(p.text(as.Rhs[2])) == "len(d)" {
+				initOK = true
+			}
+		}
+		return true
+	})
+	r.check(loopOK && initOK, "Read entry window", p.pos(rfd.Pos()), "last,i = 0,6; for i <= len(d) { b = d[last:i]; ...; last = i; i += 6 }", "Settings.Read no longer walks the payload as consecutive 6-octet entries starting at octet 0 and including the last whole entry: the first or last parameter of a SETTINGS frame is skipped or read from the wrong octets")
 	r.check(keyOK, "Read identifier bytes", p.pos(rfd.Pos()), "identifier = b[0]<<8|b[1]", "Settings.Read no longer takes the identifier from octets 0-1 big-endian")
 	r.check(valOK, "Read value bytes", p.pos(rfd.Pos()), "value = b[2..5] big-endian", "Settings.Read no longer takes the value from octets 2-5 big-endian")
 	r.check(strideOK, "Read stride", p.pos(rfd.Pos()), "entries are 6 octets", "Settings.Read no longer advances 6 octets per entry")
@@ -629,15 +670,16 @@ func ruleSettingsValidate(p *Prog, r *Out) {
 	type want struct {
 		id    int64
 		code  int64
-		conds []Cmp // each must appear (as a disjunct) in a rejecting if
+		conds []Cmp // the rejecting condition is exactly their conjunction (conj) or disjunction
+		conj  bool
 		desc  string
 	}
 	v := func(c int64) Lin { return Lin{T: map[string]int64{"value": 1}, C: c} }
 	nv := func(c int64) Lin { return Lin{T: map[string]int64{"value": -1}, C: c} }
 	wants := []want{
-		{2, 1, []Cmp{{v(0), "ne"}, {v(-1), "ne"}}, "ENABLE_PUSH other than 0/1 -> PROTOCOL_ERROR"},
-		{4, 3, []Cmp{{nv(1 << 31), "le"}}, "INITIAL_WINDOW_SIZE > 2^31-1 -> FLOW_CONTROL_ERROR"},
-		{5, 1, []Cmp{{v(-(1 << 14) + 1), "le"}, {nv(1 << 24), "le"}}, "MAX_FRAME_SIZE outside [2^14, 2^24-1] -> PROTOCOL_ERROR"},
+		{2, 1, []Cmp{{v(0), "ne"}, {v(-1), "ne"}}, true, "ENABLE_PUSH other than 0/1 -> PROTOCOL_ERROR"},
+		{4, 3, []Cmp{{nv(1 << 31), "le"}}, true, "INITIAL_WINDOW_SIZE > 2^31-1 -> FLOW_CONTROL_ERROR"},
+		{5, 1, []Cmp{{v(-(1 << 14) + 1), "le"}, {nv(1 << 24), "le"}}, false, "MAX_FRAME_SIZE outside [2^14, 2^24-1] -> PROTOCOL_ERROR"},
 	}
 	for _, w := range wants {
 		cc := cls[w.id]
@@ -653,19 +695,20 @@ func ruleSettingsValidate(p *Prog, r *Out) {
 			if !ok || !isRejectingBody(p, ifs.Body) {
 				continue
 			}
-			var walk func(e ast.Expr)
-			walk = func(e ast.Expr) {
-				e = ast.Unparen(e)
-				if b, ok := e.(*ast.BinaryExpr); ok && (b.Op == token.LOR || b.Op == token.LAND) {
-					walk(b.X)
-					walk(b.Y)
-					return
+			// the rejected set is the conjunction (ENABLE_PUSH: neither 0 nor 1) or the
+			// disjunction (MAX_FRAME_SIZE: below or above) of the wanted comparisons
+			atoms := conjuncts(ifs.Cond, w.conj)
+			for _, a := range atoms {
+				if a.Val != w.conj {
+					continue
 				}
-				if c, ok := p.canonCmp(e, nil); ok {
+				if c, ok := p.canonCmp(a.Cond, nil); ok {
 					found[c.String()] = true
 				}
 			}
-			walk(ifs.Cond)
+			if len(atoms) != len(w.conds) {
+				found["(wrong connective or extra terms)"] = true
+			}
 			for _, b := range ifs.Body.List {
 				if rs, ok := b.(*ast.ReturnStmt); ok && len(rs.Results) == 1 {
 					if cl, cd, ok := p.errorCall(rs.Results[0]); ok {
@@ -680,7 +723,7 @@ func ruleSettingsValidate(p *Prog, r *Out) {
 				all = false
 			}
 		}
-		r.check(all && class == "GoAway" && code == w.code, key, p.pos(cc.Pos()), w.desc,
+		r.check(all && len(found) == len(w.conds) && class == "GoAway" && code == w.code, key, p.pos(cc.Pos()), w.desc,
 			fmt.Sprintf("Settings.Read case %s: rejecting comparisons found %v with %s error code %d; RFC 7540 s6.5.2 requires %s as a connection error", settingsIDs[w.id], sortedKeys(found), class, code, w.desc))
 	}
 }
@@ -714,13 +757,30 @@ func ruleSettingsEncodeDefaults(p *Prog, r *Out) {
 			r.ok(key, pos, "always written")
 			continue
 		}
-		if why, ok := exempt[f]; ok {
+		if e.omitAt == "?" {
+			r.bad(key+" under an unreadable condition", pos, fmt.Sprintf("Settings.Encode writes %s under the condition `%s`, which is not of the form 'field differs from a constant': the parameter is sent for the wrong values of the field", settingsIDs[id], p.text(e.ifs.Cond)))
+			continue
+		}
+		key += " when " + e.omitAt
+		if why, ok := exempt[f]; ok && e.omitAt == "0" {
 			r.ok(key, pos, "exempt: "+why)
 			continue
 		}
 		r.check(e.omitAt == initial[f], key, pos, "omitted only at the RFC initial value",
 			fmt.Sprintf("Settings.Encode leaves %s out when the field is %s, but the peer then assumes the RFC 7540 s6.5.2 initial value (%s): an endpoint configured with %s=%s never tells its peer", settingsIDs[id], e.omitAt, orUnlimited(initial[f]), settingsIDs[id], e.omitAt))
 	}
+}
+
+func pairsAre(got, want map[int64]int64) bool {
+	if len(got) != len(want) {
+		return false
+	}
+	for k, v := range want {
+		if g, ok := got[k]; !ok || g != v {
+			return false
+		}
+	}
+	return true
 }
 
 func orUnlimited(s string) string {
